@@ -350,6 +350,11 @@ func Open(name string) (Fixture, error) {
 	case "v2/dir":
 		return NewV2Dir()
 	}
+	for _, n := range CLIFixtureNames {
+		if n == name {
+			return OpenCLI(name)
+		}
+	}
 	return nil, fmt.Errorf("kshist: unknown fixture %q", name)
 }
 
